@@ -8,6 +8,7 @@ request / delivered packet (payload unchanged, DataLength, ParamLength 21, endpo
 profile, TSN, little-endian 16-bit address, IEEE unchanged, options, indication slicing and
 addressing, sequence never 255, bind == unbind apart from the command).
 """
+import priv
 import asyncio
 import logging
 
@@ -123,7 +124,7 @@ def run(ctx):
             metas.append(("ind", ind, pk, err))
         # ---- sequence numbers
         for s0 in ([0, 1, 100, 252, 253, 254] if not ctx.thorough() else range(255)):
-            app._send_sequence = s0
+            setattr(app, priv.app_seq_name(app) or "_send_sequence", s0)
             seqs = [app.get_sequence() for _ in range(600)]
             lines.append("appseq %d 600" % s0)
             metas.append(("seq", s0, seqs, None))
@@ -152,7 +153,7 @@ def run(ctx):
             api.status = r.choice([0, 0, 1, 24])
             res = {}
             for name in ("Bind_req", "Unbind_req"):
-                app._send_sequence = 41
+                setattr(app, priv.app_seq_name(app) or "_send_sequence", 41)
                 api.sent.clear()
                 try:
                     out = await getattr(zdo, name)(src, sep, cl, dst)
